@@ -567,9 +567,46 @@ class Interp:
                 self.assign(item.optional_vars, v, cc, s)
         self.exec_block(s.body, cc)
 
+    _EXC_BASES = {"KeyError": ("LookupError",), "IndexError": ("LookupError",), "FileNotFoundError": ("OSError", "IOError"),
+                  "ZeroDivisionError": ("ArithmeticError",), "OverflowError": ("ArithmeticError",), "FloatingPointError": ("ArithmeticError",),
+                  "UnicodeDecodeError": ("ValueError", "UnicodeError"), "NotImplementedError": ("RuntimeError",), "ModuleNotFoundError": ("ImportError",)}
+
     def st_Try(self, s, cc):
+        """exceptions RAISED (recorded) in the body and named by a handler are caught there: the raise is withdrawn and the handler runs -
+        unconditionally when the body certainly ended in that raise, under an opaque condition otherwise.  Handlers of exceptions the
+        body is not seen to raise are not entered (the kernel does not model exceptions thrown inside library calls)."""
+        n0 = len(self.raises)
+        was_done = cc.done
+        nret0 = len(cc.returns)
+        entry_guards = self.guards()
         self.exec_block(s.body, cc)
-        if s.orelse:
+        caught_any = False
+        for h in s.handlers:
+            if h.type is None:
+                names = None
+            else:
+                ts = h.type.elts if isinstance(h.type, ast.Tuple) else [h.type]
+                names = {src(t).split(".")[-1] for t in ts}
+            def match(kind):
+                k = kind.split(".")[-1]
+                return names is None or k in names or bool(names & {"Exception", "BaseException"}) or \
+                    any(b in names for b in self._EXC_BASES.get(k, ()))
+            caught = [r for r in self.raises[n0:] if match(r[0])]
+            if not caught:
+                continue
+            caught_any = True
+            for r in caught:
+                self.raises.remove(r)
+            certain = cc.done and not was_done and len(cc.returns) == nret0 and any(r[1] == entry_guards for r in caught)
+            if h.name:
+                cc.env[h.name] = Term("exception", [Const(caught[0][0])])
+            if certain:
+                cc.done = False
+                self.exec_block(h.body, cc)
+            else:
+                self._guarded(CondV("opaque", "caught", Const(caught[0][0])), h.body, cc)
+                self._join_after_branches(cc)
+        if s.orelse and not caught_any:
             self.exec_block(s.orelse, cc)
         if s.finalbody:
             self.exec_block(s.finalbody, cc)
